@@ -641,3 +641,37 @@ def module_nodes(m: Module, *types) -> list:
     key = 'nodes:' + ','.join(t.__name__ for t in types)
     return tree_memo(m.tree, key, lambda t: [
         n for n in ast.walk(t) if isinstance(n, types)])
+
+
+def inline_locals(fn_node: ast.AST, expr: ast.AST, depth: int = 3) -> str:
+    """Normalised text of expr with single-assignment local names replaced
+    by their defining expressions (so that renaming a local does not change
+    the text)."""
+    params = set()
+    a = getattr(fn_node, 'args', None)
+    if a is not None:
+        params = {x.arg for x in a.posonlyargs + a.args + a.kwonlyargs}
+    defs: Dict[str, List[ast.AST]] = {}
+    for n in walk_no_nested(fn_node):
+        if isinstance(n, ast.Assign) and len(n.targets) == 1 and isinstance(
+                n.targets[0], ast.Name):
+            defs.setdefault(n.targets[0].id, []).append(n.value)
+        elif isinstance(n, (ast.AugAssign, ast.AnnAssign, ast.For,
+                            ast.NamedExpr)):
+            t = n.target
+            if isinstance(t, ast.Name):
+                defs.setdefault(t.id, []).append(None)
+
+    class T(ast.NodeTransformer):
+        def __init__(self, d):
+            self.d = d
+
+        def visit_Name(self, node):
+            if isinstance(node.ctx, ast.Load) and node.id not in params:
+                v = defs.get(node.id)
+                if v and len(v) == 1 and v[0] is not None and self.d > 0:
+                    import copy
+                    return T(self.d - 1).visit(copy.deepcopy(v[0]))
+            return node
+    import copy
+    return norm(T(depth).visit(copy.deepcopy(expr)))
